@@ -88,6 +88,21 @@ Definition hop2 (o : oracles) (more : list (bytes * bytes * bytes)) (sv_out sv_i
   stack_step (soracles_of o more) sv_out cc_out
              (lazy_backend (soracles_of o more) sv_in cc_in cons (behind o)).
 
+(* A pass over a listing iterator that the caller stops: its yield function returns false at the
+   k-th call (k >= 1).  The caller's client is [lazy_backend] with that budget - the same pager,
+   consumed as far as the caller consumes it. *)
+Definition stop_budget (k : nat) : option (option nat) := Some (Some (Nat.pred k)).
+
+Definition hop1_stop (o : oracles) (more : list (bytes * bytes * bytes)) (sv : opts) (cc : ccfg) (k : nat)
+  : registry (sstate (state * mlog)%type) :=
+  registry_of_backend (lazy_backend (soracles_of o more) sv cc (stop_budget k) (behind o)).
+
+Definition hop2_stop (o : oracles) (more : list (bytes * bytes * bytes)) (sv_out sv_in : opts) (cc_out cc_in : ccfg)
+           (cons : option (option nat)) (k : nat)
+  : registry (sstate (sstate (state * mlog)%type)) :=
+  registry_of_backend (lazy_backend (soracles_of o more) sv_out cc_out (stop_budget k)
+                                    (lazy_backend (soracles_of o more) sv_in cc_in cons (behind o))).
+
 Definition back1 (st : sstate (state * mlog)%type) : state * mlog := sv_b (st_srv st).
 Definition back2 (st : sstate (sstate (state * mlog)%type)) : state * mlog := sv_b (st_srv (sv_b (st_srv st))).
 
@@ -149,9 +164,22 @@ Definition xlate_op (ss : list sess) (o : op) : op :=
   | _ => o
   end.
 
+(* what a consumer that stops at its k-th yield has seen of an iterator that would yield [l] and
+   then maybe an error *)
+Definition cut_list {A} (k : nat) (l : list A) (e : option err) : list A * option err :=
+  if (k <=? length l)%nat then (firstn k l, None) else (l, e).
+
+Definition cut_result (k : nat) (r : result) : result :=
+  match r with
+  | Ok (RList l e) => let '(l', e') := cut_list k l e in Ok (RList l' e')
+  | Ok (RDescs l e) => let '(l', e') := cut_list k l e in Ok (RDescs l' e')
+  | _ => r
+  end.
+
 Section Run.
   Variable St : Type.
   Variable step : registry St.
+  Variable stop : nat -> registry St.      (* [step] for a listing the caller stops at its k-th yield *)
   Variable back : St -> state * mlog.
 
   Definition id_of_handle (st : St) (h : wid) : bytes :=
@@ -175,17 +203,46 @@ Section Run.
     | _, _ => (ss, r)
     end.
 
-  Fixpoint srun (st : St) (ss : list sess) (ops : list op) : St * list (result * list bcall) :=
+  (* one call with the calls the registry behind received for it *)
+  Definition traced (f : registry St) (st : St) (o : op) : St * result * list bcall :=
+    let n0 := length (snd (back st)) in
+    let '(st', r) := f st o in
+    let '(m', lg) := back st' in
+    (st', r, flat_map (bcall_of m') (rev (firstn (length lg - n0) lg))).
+
+  (* the passes the caller stopped early, made over the iterator of a Repositories / Tags call
+     before the complete pass: ociclient's pager sends its requests while it is iterated, every
+     pass starts from the caller's start point *)
+  Fixpoint pre_passes (st : St) (o : op) (ks : list nat) : St * list (result * list bcall) :=
+    match ks with
+    | [] => (st, [])
+    | k :: ks' =>
+        let '(st1, r, tr) := traced (stop k) st o in
+        let '(st2, rest) := pre_passes st1 o ks' in
+        (st2, (r, tr) :: rest)
+    end.
+
+  (* per operation: the answer, the calls behind, and the same for every stopped pass *)
+  Fixpoint srun (st : St) (ss : list sess) (ops : list op) (pres : list (list nat))
+    : St * list (result * list bcall * list (result * list bcall)) :=
     match ops with
     | [] => (st, [])
     | o :: ops' =>
-        let n0 := length (snd (back st)) in
-        let '(st', r) := step st (xlate_op ss o) in
-        let '(m', lg) := back st' in
-        let calls := rev (firstn (length lg - n0) lg) in
+        let ks := match pres with k :: _ => k | [] => [] end in
+        let '(st0, pp) := match o with
+                          | Repositories _ | Tags _ _ => pre_passes st o ks
+                          | _ => (st, [])
+                          end in
+        let '(st', r, calls) := traced step st0 (xlate_op ss o) in
         let '(ss', r') := xlate_res st' ss o r in
-        let '(stf, rest) := srun st' ss' ops' in
-        (stf, (r', flat_map (bcall_of m') calls) :: rest)
+        (* client.Referrers sends its request when it is called and returns a slice iterator:
+           a stopped pass sees the beginning of the slice, the registry behind sees nothing more *)
+        let pp' := match o with
+                   | Referrers _ _ _ => map (fun k => (cut_result k r', [])) ks
+                   | _ => pp
+                   end in
+        let '(stf, rest) := srun st' ss' ops' (tl pres) in
+        (stf, (r', calls, pp') :: rest)
     end.
 End Run.
 
@@ -194,16 +251,21 @@ Arguments srun {St}.
 (* what the composed model says about a history: per operation the answer and the calls the
    registry behind received; the registry behind at the end *)
 Definition stack_run (cfg : scfg) (orc : oracles) (more : list (bytes * bytes * bytes)) (bufsz : nat)
-           (ops : list op) : state * list (result * list bcall) :=
+           (ops : list op) (pres : list (list nat))
+  : state * list (result * list bcall * list (result * list bcall)) :=
   if two_hops cfg then
     let '(st, l) := srun (hop2 orc more (opts_of (k_opts1 cfg)) (opts_of (k_opts2 cfg))
                                (ccfg_of (k_page cfg) bufsz) (ccfg_of (k_page2 cfg) bufsz)
                                (consumption (k_opts1 cfg) (k_page cfg)))
-                         back2 (sstate0 (sstate0 (Mem.init, []))) [] ops in
+                         (hop2_stop orc more (opts_of (k_opts1 cfg)) (opts_of (k_opts2 cfg))
+                                    (ccfg_of (k_page cfg) bufsz) (ccfg_of (k_page2 cfg) bufsz)
+                                    (consumption (k_opts1 cfg) (k_page cfg)))
+                         back2 (sstate0 (sstate0 (Mem.init, []))) [] ops pres in
     (fst (back2 st), l)
   else
     let '(st, l) := srun (hop1 orc more (opts_of (k_opts1 cfg)) (ccfg_of (k_page cfg) bufsz))
-                         back1 (sstate0 (Mem.init, [])) [] ops in
+                         (hop1_stop orc more (opts_of (k_opts1 cfg)) (ccfg_of (k_page cfg) bufsz))
+                         back1 (sstate0 (Mem.init, [])) [] ops pres in
     (fst (back1 st), l).
 
 (* ---------------------------------------------------------------- comparison with the observation *)
@@ -269,25 +331,40 @@ Definition final_agrees (orc : oracles) (m : state) (snap : list (op * oresult *
   agrees_all (map (fun e => snd e) snap)
              (snd (run (mem_step orc false) m (map (fun e => fst (fst e)) snap))).
 
-(* per operation: covered?, observed answer, status, observed trace, model *)
-Fixpoint steps_agree (cov : list bool) (vs : list oresult) (sts : list Z) (trs : list (list bcall))
-         (ms : list (result * list bcall)) : bool :=
-  match cov, vs, sts, trs, ms with
-  | [], [], [], [], [] => true
-  | c :: cov', v :: vs', st :: sts', tr :: trs', m :: ms' =>
-      (negb c || (via_agrees v st (fst m) && strace_eqb tr (snd m)))
-      && steps_agree cov' vs' sts' trs' ms'
-  | _, _, _, _, _ => false
+(* a pass over the iterator of a listing call that the caller stopped at its k-th yield, made
+   before the complete pass the operation records: what it yielded on both sides, the status of
+   the error the stack's iterator yielded (0 = none), the calls the recording backend received *)
+Record prepass := { pp_k : nat; pp_direct : oresult; pp_via : oresult; pp_vstat : Z; pp_trace : list bcall }.
+
+Fixpoint pres_agree (ps : list prepass) (ms : list (result * list bcall)) : bool :=
+  match ps, ms with
+  | [], [] => true
+  | p :: ps', m :: ms' =>
+      via_agrees (pp_via p) (pp_vstat p) (fst m) && strace_eqb (pp_trace p) (snd m) && pres_agree ps' ms'
+  | _, _ => false
   end.
 
-(* diagnostics: index, answer agrees, trace agrees *)
+(* per operation: covered?, observed answer, status, observed trace, stopped passes, model *)
+Fixpoint steps_agree (cov : list bool) (vs : list oresult) (sts : list Z) (trs : list (list bcall))
+         (pres : list (list prepass)) (ms : list (result * list bcall * list (result * list bcall))) : bool :=
+  match cov, vs, sts, trs, pres, ms with
+  | [], [], [], [], [], [] => true
+  | c :: cov', v :: vs', st :: sts', tr :: trs', ps :: pres', m :: ms' =>
+      (negb c || (via_agrees v st (fst (fst m)) && strace_eqb tr (snd (fst m)) && pres_agree ps (snd m)))
+      && steps_agree cov' vs' sts' trs' pres' ms'
+  | _, _, _, _, _, _ => false
+  end.
+
+(* diagnostics: index, answer agrees, trace agrees, stopped passes agree *)
 Fixpoint steps_bad (i : N) (cov : list bool) (vs : list oresult) (sts : list Z) (trs : list (list bcall))
-         (ms : list (result * list bcall)) : list (N * bool * bool) :=
-  match cov, vs, sts, trs, ms with
-  | c :: cov', v :: vs', st :: sts', tr :: trs', m :: ms' =>
-      let a := via_agrees v st (fst m) in
-      let b := strace_eqb tr (snd m) in
-      (if c && negb (a && b) then [(i, a, b)] else []) ++ steps_bad (N.succ i) cov' vs' sts' trs' ms'
-  | [], [], [], [], [] => []
-  | _, _, _, _, _ => [(i, false, false)]
+         (pres : list (list prepass)) (ms : list (result * list bcall * list (result * list bcall)))
+  : list (N * bool * bool * bool) :=
+  match cov, vs, sts, trs, pres, ms with
+  | c :: cov', v :: vs', st :: sts', tr :: trs', ps :: pres', m :: ms' =>
+      let a := via_agrees v st (fst (fst m)) in
+      let b := strace_eqb tr (snd (fst m)) in
+      let p := pres_agree ps (snd m) in
+      (if c && negb (a && b && p) then [(i, a, b, p)] else []) ++ steps_bad (N.succ i) cov' vs' sts' trs' pres' ms'
+  | [], [], [], [], [], [] => []
+  | _, _, _, _, _, _ => [(i, false, false, false)]
   end.
